@@ -1147,7 +1147,7 @@ def main():
     else:
         bound = ("reserved positions 2..120 exhaustively (+ up to 1001 sampled) x id as bytes/text/preserve_context; enclosing-action and second-hop positions "
                  "up to 101; 1200 random programs: <= 4 hops, <= 7 hand-offs, <= 3 nested actions, 5 sink kinds, 4 baton policies, <= 2 fresh interpreter "
-                 "processes per program; >= 14 merge orders per program; races: 2 callers x every _action.py line of one call as park point (+ inside f) "
+                 "processes per program; >= 10 merge orders per program; races: 2 callers x every _action.py line of one call as park point (+ inside f) "
                  "x return/raise, 3 callers x 3000 sampled park pairs")
     if truncated:
         bound += " [time budget reached: scenario list truncated]"
